@@ -56,8 +56,8 @@ func hugeCases(thorough bool) []hugeCase {
 }
 
 func enumerateHuge(t *testing.T, p prop[hugeCase]) {
-	nshards, _ := strconv.Atoi(getenv("VERIF_NSHARDS", "1"))
-	shard, _ := strconv.Atoi(getenv("VERIF_SHARD", "0"))
+	nshards, _ := strconv.Atoi(vhGetenv("VERIF_NSHARDS", "1"))
+	shard, _ := strconv.Atoi(vhGetenv("VERIF_SHARD", "0"))
 	p.classify = func(h hugeCase) ([]string, bool) {
 		cls := []string{fmt.Sprintf("distinct_lines_0x%X", h.Lines)}
 		if h.Swap {
@@ -157,7 +157,7 @@ func checkHugeDoc(h hugeDocCase) error {
 	r := call(h.doc("2026-01-01T00:00:00Z", -1)).invoke(spec.build(root), ft)
 	ft.finish()
 	if out, err := outcomeOf(r); err != nil || out != oAdded {
-		return fmt.Errorf("recording: outcome %q err %v errors=%q", out, err, clipAll(r.Errors))
+		return fmt.Errorf("recording: outcome %q err %v errors=%q", out, err, vhClipAll(r.Errors))
 	}
 	for _, v := range []struct {
 		stamp string
@@ -176,8 +176,8 @@ func checkHugeDoc(h hugeDocCase) error {
 }
 
 func TestC16_HugeDocument(t *testing.T) {
-	nshards, _ := strconv.Atoi(getenv("VERIF_NSHARDS", "1"))
-	shard, _ := strconv.Atoi(getenv("VERIF_SHARD", "0"))
+	nshards, _ := strconv.Atoi(vhGetenv("VERIF_NSHARDS", "1"))
+	shard, _ := strconv.Atoi(vhGetenv("VERIF_SHARD", "0"))
 	var cases []hugeDocCase
 	for k, rows := range []int{10050, 12000, 20000, 33000} {
 		for j, at := range []int{3, rows / 2, 10001, rows - 1} {
